@@ -103,24 +103,6 @@ func findFirstBetween(value, sub, start, finish any) (any, error) {
 		}
 	}
 
-	if i < 0 {
-		i = 0
-	} else if i > len(s) {
-		return nil, nil
-	} else {
-		n := 0
-		for j := 0; j < i; j++ {
-			_, sz := utf8.DecodeRuneInString(s[n:])
-			if sz == 0 {
-				return nil, nil
-			}
-
-			n += sz
-		}
-
-		i = n
-	}
-
 	j, isNum, ok := toInt(finish)
 	if !ok {
 		if !isNum {
@@ -141,6 +123,24 @@ func findFirstBetween(value, sub, start, finish any) (any, error) {
 		return nil, &integerConversionError{
 			num: d,
 		}
+	}
+
+	if i < 0 {
+		i = 0
+	} else if i > len(s) {
+		return nil, nil
+	} else {
+		n := 0
+		for j := 0; j < i; j++ {
+			_, sz := utf8.DecodeRuneInString(s[n:])
+			if sz == 0 {
+				return nil, nil
+			}
+
+			n += sz
+		}
+
+		i = n
 	}
 
 	if j < 0 {
@@ -316,24 +316,6 @@ func findLastBetween(value, sub, start, finish any) (any, error) {
 		}
 	}
 
-	if i < 0 {
-		i = 0
-	} else if i > len(s) {
-		return nil, nil
-	} else {
-		n := 0
-		for j := 0; j < i; j++ {
-			_, sz := utf8.DecodeRuneInString(s[n:])
-			if sz == 0 {
-				return nil, nil
-			}
-
-			n += sz
-		}
-
-		i = n
-	}
-
 	j, isNum, ok := toInt(finish)
 	if !ok {
 		if !isNum {
@@ -354,6 +336,24 @@ func findLastBetween(value, sub, start, finish any) (any, error) {
 		return nil, &integerConversionError{
 			num: d,
 		}
+	}
+
+	if i < 0 {
+		i = 0
+	} else if i > len(s) {
+		return nil, nil
+	} else {
+		n := 0
+		for j := 0; j < i; j++ {
+			_, sz := utf8.DecodeRuneInString(s[n:])
+			if sz == 0 {
+				return nil, nil
+			}
+
+			n += sz
+		}
+
+		i = n
 	}
 
 	if j < 0 {
